@@ -23,9 +23,13 @@ Proved, for all values in range / all lists:
        `view_of_tables`.  Code items with or without tries (the try items and the
        encoded_catch_handler_list of AgVerif.Spec.Tries are read past; their contents are C08's
        subject).  Non-vacuity: a 692-byte DEX written by harness/dexasm.py (Proof/DexExample.lean).
+  write `build_encodes`, `parse_build`: a layout-parametric writer whose output `Encodes` the tables for
+       every `Consistent` layout, hence parse ∘ write = declared content; witnessed by the same
+       content laid out in another order (Example.T2 / L2), which declares the same view.
 -/
 import AgVerif.Proof.DexFile
 import AgVerif.Proof.DexLoadView
+import AgVerif.Proof.DexBuild
 import AgVerif.Proof.DexExample
 namespace AgVerif.C05
 open AgVerif.DexFile AgVerif.Spec.Leb
@@ -270,6 +274,18 @@ def C05_full : Prop :=
 theorem parse_encode : C05_full := fun _ _ _ hwf henc =>
   ⟨readMap_enc henc, loadEntries_tables henc hwf, parseDex_declared henc hwf⟩
 
+/-- A layout-parametric writer: `build T L size` writes header.map_off, the map list and every
+    listed section into `size` zero bytes.  Whenever the layout is `Consistent` with the tables
+    (decidable: the regions fit and are pairwise disjoint, map entries carry the row counts,
+    4-alignment where the format wants it) and the rows carry valid encodings, the written file
+    `Encodes` the tables — the hypotheses of `parse_encode` are satisfiable for every such layout. -/
+theorem build_encodes (T : Tables) (L : Layout) (size : Nat) (hc : Consistent T L size) (hi : ItemsOk T) :
+    Encodes (build T L size) L T := encodes_build hc hi
+
+/-- parse ∘ write = declared content, for every consistent layout -/
+theorem parse_build (T : Tables) (L : Layout) (size : Nat) (hwf : WF T L) (hc : Consistent T L size)
+    (hi : ItemsOk T) : parseDex (build T L size) = .ok (declared T L) := parseDex_build hwf hc hi
+
 /-- the rows the loader holds are the rows of the tables (the statement of the first delivery's
     `C05_full`, for the sections that are in the map) -/
 theorem tables_rows (T : Tables) (L : Layout) :
@@ -428,6 +444,15 @@ example : ((allFields witness).map FieldV.triple).Nodup := by decide +kernel
 example : WF Example.T Example.L ∧ Encodes Example.file Example.L Example.T := ⟨Example.wf, Example.encodes⟩
 example : parseDex Example.file = .ok (declared Example.T Example.L) :=
   (parse_encode _ _ _ Example.wf Example.encodes).2.2
+/-- … the same content written by `build` in another layout (class_defs first, string_ids last,
+    gaps, map entries in another order) is a different file that parses to the same view … -/
+example : WF Example.T2 Example.L2 ∧ Consistent Example.T2 Example.L2 Example.size2 ∧ ItemsOk Example.T2 :=
+  ⟨Example.wf2, Example.consistent2, Example.itemsOk2⟩
+example : build Example.T2 Example.L2 Example.size2 ≠ Example.file ∧
+    parseDex (build Example.T2 Example.L2 Example.size2) = parseDex Example.file := by
+  refine ⟨Example.other_file, ?_⟩
+  rw [parse_build _ _ _ Example.wf2 Example.consistent2 Example.itemsOk2,
+    (parse_encode _ _ _ Example.wf Example.encodes).2.2, Example.same_view]
 /-- … and what it declares is not trivial -/
 example : (declared Example.T Example.L).classes.map (fun c => [c.name, c.super] ++ c.ifaces ++ c.src.toList) =
     [[ascii "LFoo;", ascii "Ljava/lang/Object;", ascii "Ljava/lang/Runnable;", ascii "Foo.java"]] := by decide +kernel
